@@ -350,7 +350,11 @@ def gen_block(rng, sh, ids, n_templates, weights):
             have = sorted(x for x in sh.ex[k] if x >= 0)
             cs = sorted({rng.choice(have) for _ in range(rng.randint(1, 2))})
         else:
-            cs = sorted({sh.pick(rng, k, num(rng, False)) for _ in range(rng.randint(1, 2))})
+            have = sorted(x for x in sh.ex[k] if x >= 0)
+            if have and rng.random() < 0.9:
+                cs = sorted({rng.choice(have) for _ in range(rng.randint(1, 2))})
+            else:     # entities mixed from nothing are legal but degenerate; kept rare
+                cs = sorted({sh.pick(rng, k, num(rng, False)) for _ in range(rng.randint(1, 2))})
         sh.add(k, n, m)
         return {"op": "emix", "kind": k, "n": n, "m": m, "comps": [(c, rng.choice([0.5, 1.0])) for c in cs]}
     raise ValueError(o)
